@@ -109,11 +109,11 @@ def run_all(cases, with_sets):
     return outs
 
 
-def same(a, b, exact):
+def same(a, b, exact, slack=0.0):
     a, b = np.asarray(a, dtype=float), np.asarray(b, dtype=float)
     if a.shape != b.shape:
         return False, 'shape %s vs %s' % (a.shape, b.shape)
-    bad = np.nonzero(a != b) if exact else np.nonzero(~(np.abs(a - b) <= 1e-9 * np.maximum(1.0, np.abs(b))))
+    bad = np.nonzero(a != b) if exact else np.nonzero(~(np.abs(a - b) <= 1e-9 * np.maximum(1.0, np.abs(b)) + slack))
     if len(bad[0]):
         k = tuple(int(x[0]) for x in bad)
         return False, 'entry %s: relevance on %r, relevance off %r' % (k, float(a[k]), float(b[k]))
@@ -146,10 +146,16 @@ def main():
             r['kind'] += ':vacuous'
             r['vacuous'] = 1
         else:
-            exact = c['cfg'].get('lin') in ('runonce', 'direct', 'direct_sub') and not c['spec']['coupled']
+            exact = c['cfg'].get('lin') == 'runonce' and not c['spec']['coupled']
+            slack = 0.0
+            if not exact:
+                # both runs met the iterative solvers' absolute tolerance; their solutions may differ by twice the
+                # corresponding error bound
+                ex = sg.exact_all(sg.flatten(c['spec']))
+                slack = 2 * sg.solver_slack(ex) if ex is not None else 0.0
             for key, what in (('Jfwd', 'total derivatives (fwd)'), ('Jrev', 'total derivatives (rev)'),
                               ('state', 'converged outputs / responses')):
-                good, why = same(a[key], b[key], exact)
+                good, why = same(a[key], b[key], exact, slack)
                 if not good and r['ok']:
                     r.update(ok=False, sig='relevance:%s:%s' % (key, c['cfg'].get('lin')),
                              msg='%s differ with relevance on / off (%s): %s | cfg=%s' % (
